@@ -262,6 +262,7 @@ type analysis struct {
 	rootDecl *node
 	gotos    map[string][]*rel // states at goto statements, per label (current function)
 	ptrAlias map[*types.Var][2]string // non-escaping local p := &x.f...  ->  (type, field)
+	aliasLoc map[string][2]string // "!from:<var>" marker -> pointer/interface-typed field the local was copied from
 	pubLoc   map[string][2]string // "!pub:<var>" marker -> atomic location the local was published through
 	calls    map[string]*rawCall
 	callInt  map[string]bool // callees of interest (node names); nil = all (selftest)
@@ -474,6 +475,7 @@ const (
 	cAddrArg  // &x.f as a direct call argument, pointer-receiver call on a foreign struct field
 	cAddrElse // &x.f anywhere else
 	cPath     // struct-valued prefix of a longer selector: no access of its own
+	cThrough  // write THROUGH a pointer / interface held in a field (or a local copy of it)
 	cLockRecv // receiver of a Lock/Unlock call
 	cSyncRecv // receiver of another sync.* / atomic.* method
 )
@@ -486,6 +488,8 @@ func kindOf(c ctx) string {
 		return "KWrite"
 	case cAtomic, cSyncRecv:
 		return "KAtomic"
+	case cThrough:
+		return "KWriteThrough"
 	case cAddrArg:
 		return "KAddrArg"
 	}
@@ -607,6 +611,7 @@ func (a *analysis) expr(e ast.Expr, c ctx) {
 	case *ast.StarExpr:
 		if isWriteCtx(c) {
 			a.pubWrite(x.X, x.Pos())
+			a.throughWrite(x.X, x.Pos())
 		}
 		if id, isId := x.X.(*ast.Ident); isId {
 			if v, ok := a.info().Uses[id].(*types.Var); ok {
@@ -792,6 +797,89 @@ func (a *analysis) publish(recv ast.Expr, arg ast.Expr) {
 	a.st.may[key] = true
 }
 
+// throughWrite: base.g = .. / *base = .. where base is a pointer (or interface) that is
+//   (a) a field of a listed type whose pointee is NOT a listed type:  x.f.g = ..      or
+//   (b) a local variable that may still hold a copy of such a field:  p := x.f; p.g = ..
+// (a reassignment of p, e.g. p = p.Clone(), ends (b)).  Recorded as a KWriteThrough access
+// of x.f: the object behind a caller-supplied pointer is being modified.
+func (a *analysis) throughWrite(base ast.Expr, pos token.Pos) {
+	for {
+		if p, ok := base.(*ast.ParenExpr); ok {
+			base = p.X
+			continue
+		}
+		break
+	}
+	t := a.info().TypeOf(base)
+	if t == nil {
+		return
+	}
+	if !isPointer(t) {
+		if _, isIface := t.Underlying().(*types.Interface); !isIface {
+			return
+		}
+	}
+	if n := namedOf(t); n != nil {
+		if _, listed := a.typeName(n); listed {
+			return // the pointee's own fields are recorded as accesses of the listed type
+		}
+	}
+	switch x := base.(type) {
+	case *ast.SelectorExpr:
+		if fn := a.fieldName(x); fn != "" {
+			i := strings.LastIndex(fn, ".")
+			a.record(fn[:i], fn[i+1:], "KWriteThrough", pos, a.rootFresh(x, x.Pos()))
+		}
+	case *ast.Ident:
+		if v, ok := a.info().Uses[x].(*types.Var); ok {
+			key := fmt.Sprintf("!from:%d", v.Pos())
+			if a.st.may[key] {
+				loc := a.aliasLoc[key]
+				a.record(loc[0], loc[1], "KWriteThrough", pos, false)
+			}
+		}
+	}
+}
+
+// aliasAssign: v := x.f / v = x.f with x.f a pointer- or interface-typed field of a listed
+// type starts the alias, any other assignment to v ends it (on this path).
+func (a *analysis) aliasAssign(lhs ast.Expr, rhs ast.Expr) {
+	id, ok := lhs.(*ast.Ident)
+	if !ok || id.Name == "_" {
+		return
+	}
+	obj := a.info().Defs[id]
+	if obj == nil {
+		obj = a.info().Uses[id]
+	}
+	v, ok := obj.(*types.Var)
+	if !ok || v.IsField() || v.Pkg() == nil || v.Parent() == v.Pkg().Scope() {
+		return
+	}
+	key := fmt.Sprintf("!from:%d", v.Pos())
+	for rhs != nil {
+		if p, ok := rhs.(*ast.ParenExpr); ok {
+			rhs = p.X
+			continue
+		}
+		break
+	}
+	if se, ok := rhs.(*ast.SelectorExpr); ok {
+		if fn := a.fieldName(se); fn != "" {
+			if t := a.info().TypeOf(se); t != nil {
+				_, isIface := t.Underlying().(*types.Interface)
+				if isPointer(t) || isIface {
+					i := strings.LastIndex(fn, ".")
+					a.aliasLoc[key] = [2]string{fn[:i], fn[i+1:]}
+					a.st.may[key] = true
+					return
+				}
+			}
+		}
+	}
+	delete(a.st.may, key)
+}
+
 // pubWrite: a write through the local id; if the local may have been published, record it.
 func (a *analysis) pubWrite(e ast.Expr, pos token.Pos) {
 	for {
@@ -886,6 +974,7 @@ func (a *analysis) selector(x *ast.SelectorExpr, c ctx) {
 		xt := a.info().TypeOf(x.X)
 		if isWriteCtx(c) {
 			a.pubWrite(x.X, x.Sel.Pos())
+			a.throughWrite(x.X, x.Sel.Pos())
 		}
 		if id, isId := x.X.(*ast.Ident); isId {
 			if v, ok := a.info().Uses[id].(*types.Var); ok {
@@ -1746,6 +1835,15 @@ func (a *analysis) stmt(s ast.Stmt, label string) {
 			}
 			a.assignLHS(l, x.Tok == token.DEFINE)
 		}
+		if !a.st.bottom {
+			for i, l := range x.Lhs {
+				if len(x.Lhs) == len(x.Rhs) {
+					a.aliasAssign(l, x.Rhs[i])
+				} else {
+					a.aliasAssign(l, nil)
+				}
+			}
+		}
 	case *ast.GoStmt:
 		a.call(x.Call, "go")
 	case *ast.DeferStmt:
@@ -2367,7 +2465,7 @@ func run(pkgs []*packages.Package, interest map[*types.TypeName]string, allStruc
 		params: map[*types.Var]*pparam{}, litVar: map[*types.Var]*node{},
 		facts: map[string]*rawFact{}, chans: map[string]chanFact{}, gos: map[string]goFact{},
 		unks: map[string]unkFact{}, globalsW: map[*types.Var]bool{}, universe: map[string]bool{},
-		ptrAlias: map[*types.Var][2]string{}, calls: map[string]*rawCall{}, callInt: callsOfInterest, pubLoc: map[string][2]string{},
+		ptrAlias: map[*types.Var][2]string{}, calls: map[string]*rawCall{}, callInt: callsOfInterest, pubLoc: map[string][2]string{}, aliasLoc: map[string][2]string{},
 	}
 	if allStruct {
 		a.callInt = nil
@@ -2812,6 +2910,10 @@ func header() string {
    through v in the same function (v[i] = .., v.f = .., *v = .., copy(v, ..)) is recorded as
    a KWrite access of x ("written after publish"); passing v on to another function is not
    followed.
+   Writes through pointers held in fields: x.f.g = .. / *x.f = .. with f a pointer- or
+   interface-typed field of a listed type whose pointee is not itself a listed type, and the
+   same through a local copy p := x.f (until p is reassigned), are KWriteThrough accesses of
+   x.f (method calls on the pointee and copies of p are not followed).
    Further rules: a label that is the target of a goto is treated as a loop head; a
    function literal handed to sort.Slice & co. or sync.Once.Do runs in place; a local
    p := &x.f[i] that is only dereferenced makes every use of p an access of x.f; fields of a
@@ -2971,7 +3073,7 @@ var interestTable = map[string][]string{
 	"": {"Conn", "connDeadline", "Batch", "Writer", "partitionWriter", "writeBatch", "batchQueue", "writerStats",
 		"Reader", "reader", "readerStats", "Transport", "connPool", "connPoolState", "connGroup", "conn", "Client",
 		"RoundRobin", "LeastBytes", "leastBytesCounter", "Hash", "ReferenceHash", "randomBalancer",
-		"CRC32Balancer", "Murmur2Balancer", "summary", "Generation", "ConsumerGroup"},
+		"CRC32Balancer", "Murmur2Balancer", "summary", "Generation", "ConsumerGroup", "Dialer"},
 	"/protocol":        {"pageBuffer", "page", "pageRef"},
 	"/compress/gzip":   {"Codec", "reader", "writer"},
 	"/compress/snappy": {"Codec", "reader", "writer", "xerialReader", "xerialWriter"},
